@@ -396,11 +396,12 @@ func zzRedisSlash() {
 func zzC02Redis() {
 	c := zzNewClient()
 	zzStrictCreateVersion = false
+	key := []string{"a", "/a"}[vParam("SLASHKEY")]
 	pre := vBool("prePresent")
 	if pre {
-		zzSeed("a", zzRec{true, []byte{1}, "pre-version", nil}, time.Time{})
+		zzSeed(key, zzRec{true, []byte{1}, "pre-version", nil}, time.Time{})
 	}
-	zzC02Run(c, pre, "a")
+	zzC02Run(c, pre, key)
 }
 
 // C07 (redis): the polling WaitForVersionChange against the server stub. The poll timer is driven by the
